@@ -100,6 +100,21 @@ def thorough_matrix():
     return m
 
 
+class Eng:
+    """what differs between the vector (E1) and set (E2) explorers"""
+
+    def __init__(self, label, build_fn, name_fn, cat_fn, kind_fn):
+        self.label, self.build, self.name, self.cat, self.kind = label, build_fn, name_fn, cat_fn, kind_fn
+
+
+def _vcat(i):
+    return {"TC1": "TC", "TC4": "TC", "TC12": "TC", "TR": "TR", "PTT": "TR", "NTR": "NTR", "PTN": "NTR"}[i["elem"]]
+
+
+def _vkind(i):
+    return i["flavour"]
+
+
 def run_one(i, deadline_s, eng=None, ctx=None):
     """Run one instantiation; returns dict(result json | crash info).  The deadline is the check's global one: an
     instantiation that starts late gets what is left (at least 20 s) and reports itself incomplete if that is not enough."""
